@@ -118,7 +118,8 @@ class CliCreate(Instance):
 
 C1 = [0, 1, 2, 3, 0, 0, 1, 2, 2, 3, 1, 3, 3, 0, 2, 1, 1]
 C2 = [0, 1, 2, 3, 0, 0, 1, 2, 0, 3, 1, 3, 3, 0, 2, 1, 1]
-FILES2 = [(b"ref.fa", [(b"chr1", C1), (b"chr2 desc", [3, 3, 2, 0]), (b"tiny", [1, 2])]), (b"smp.fa", [(b"chr1", C2), (b"chrX", C1[:9] + [7] + C1[10:])])]
+FILES2 = [(b"ref.fa", [(b"chr1", C1), (b"chr2 desc", [3, 3, 2, 0]), (b"tiny", [1, 2])]), (b"smp.fa", [(b"chr1", C2), (b"chrX", C1[:9] + [7] + C1[10:]), (b"short", [2, 1])]),
+          (b"tiny.fa", [(b"only", [1])])]          # non-reference inputs with contigs shorter than k, and a sample made only of such a contig
 INSTANCES = {}
 
 
